@@ -117,6 +117,32 @@ def make_and_run(prop, unit, ob, src=None):
     return path, None
 
 
+def write_unproved(prop, unit, ob, src=None):
+    '''Replay file of an obligation that was discharged on the unchanged tree and is not provable on this one, the
+    solver giving no model: it names the obligation and carries the verifier's output; there is no input to run.'''
+    from pyvc import driver
+    spec = driver.load_spec(unit['suite'])
+    fs = spec.funcs[unit['function']]
+    data = {
+        'property': prop, 'obligation': ob['id'], 'kind': ob['kind'], 'label': ob['label'], 'status': ob['status'],
+        'function': unit['function'], 'unit': unit['unit'], 'suite': unit['suite'],
+        'source_file': unit['file'], 'source_lines': unit['lines'], 'source_hash': unit['src_hash'],
+        'clause': clause_source(spec, fs, ob),
+        'solver': {'verdict': 'unknown (no proof and no counter-model within twice the per-obligation budget; the same '
+                              'obligation is in the committed baseline of obligations discharged on the unchanged tree)',
+                   'backends': ob['backends'], 'per_path': ob.get('paths'), 'solver_s': ob.get('solver_s')},
+        'unit_notes': unit.get('notes'), 'unit_unsupported': unit.get('unsupported'),
+        'reproduced': False, 'no_failing_input': True,
+        'repo_src': src or os.environ.get('PYVC_REPO_SRC') or '/repo/src',
+    }
+    os.makedirs(os.path.join(ROOT, 'replays'), exist_ok=True)
+    name = '%s-%s.json' % (prop, re.sub(r'[^A-Za-z0-9_.]+', '_', ob['id']))[:180]
+    path = os.path.join(ROOT, 'replays', name)
+    with open(path, 'w') as f:
+        json.dump(data, f, indent=1, default=str)
+    return path
+
+
 def _ghost_code(spec, key):
     fs = spec.funcs.get(key)
     if fs is None:
@@ -147,6 +173,10 @@ def run_file(path):
                                                   data['source_hash']))
     print('  solver: %s via %s' % (data['solver']['verdict'], data['solver']['backends']))
     suite = data['suite']
+    if data.get('no_failing_input'):
+        print('  the verifier produced no counter-model for this obligation: nothing to run')
+        print('NOT-REPRODUCED')
+        return 0
     if suite == 'tcpcl':
         sys.path.insert(0, os.path.join(ROOT, 'harness'))
         import tcpcl_replay
